@@ -256,6 +256,13 @@ def r11_4(ctx):
         r = [n for n in ast.walk(f.node) if isinstance(n, ast.Return)]
         construct = f"DeprecatedOptions.{name}/plain table lookup"
         ok = bool(r) and ast.unparse(r[0].value) in (expect, expect.replace(", None)", ")"))
+        if not ok and ".get(" in expect:
+            # the same lookup spelled `if k in T: return T[k]` + `return <default>`
+            tbl, key, dflt = expect.split(".get(")[0], expect.split(".get(")[1].split(",")[0].strip(), expect.rsplit(",", 1)[1].strip(" )")
+            flk = Flow(f.node, resolver=Resolver(f.node)).run()
+            hit = [x for x in r if ast.unparse(x.value) == f"{tbl}[{key}]" and (f"{key} in {tbl}", True) in (flk.guards_at(x) or set())]
+            miss = [x for x in r if ast.unparse(x.value) == dflt]
+            ok = len(r) == 2 and len(hit) == 1 and len(miss) == 1
         (ctx.ok(construct, f.loc(), nontrivial=False) if ok else ctx.bad(construct, f"returns {ast.unparse(r[0].value) if r else None}", f.loc()))
 
 
